@@ -84,3 +84,8 @@ claimed["C06"] = (
  "Decides: size constants; encoder layouts equal the classic Whisper table (offset, width, byte order, field role) and decoders mirror them; offsets follow the contiguous recurrence in fillOffset and validate; file length = header + 12 x points and Create truncates to it; maxRetention = last archive's retention; slot address = offset + index*12 with index = floorMod((interval-base)/step, points), base from the archive's first 4 bytes, first point of an empty archive at slot 0, every aligned point written unconditionally; alignment in 64-bit floored arithmetic. Necessary structural conditions of C06.",
  "Not decided: that go-whisper reads the same series for every history (behavioural cross-reading); go-whisper itself is not analysed.",
  "DESIGN.md 5 (C06)")
+claimed["C15"] = (
+ "static untrusted-size discipline: canonicalised rejecting tests as bounds, big-integer wrap check of the guarded size, E-codec guard coverage, divisor positivity, bounded-index rule",
+ "Decides: decoder allocations sized by decoded counts are proportional to the input (dominated by this decoder's length guard), bounded by a rejecting test whose constant keeps prefix+elem*count within MaxInt32 with the product computed in int, and non-negative; Open bounds the retried header read by the file size and rejects files shorter than ExpectedFileSize; no decoder reads past its guards; every integer division/modulo by a non-constant is by a validated field, a positivity-tested value, or a unit multiplier; slot counters driven by file content are bounded by the destination's length; the page cache checks bounds first; the explicit panic is unreachable. Necessary structural conditions of C15.",
+ "Not decided: hang-freedom, memory high-water marks, the 57 bounds checks the compiler cannot prove (cross-referenced once, not decided), behaviour of reads beyond ExpectedFileSize for files that are longer than described.",
+ "DESIGN.md 5 (C15)")
